@@ -355,6 +355,8 @@ class MSession:
         self.texts: list[str] = []
 
     def _push(self, ev: dict, obj):
+        if ev["exc"].endswith("Timeout"):
+            ev["exc"] = "Timeout"          # whatever step ran out of time: no verdict (performance is not a property)
         self.raw.append(ev)
         self.objs.append(obj)
         if ev["exc"]:
@@ -424,7 +426,7 @@ class MSession:
                 try:
                     tab, exc = timed(table_of, obj, envs, secs=10.0)
                     if exc:
-                        full["exc"] = "evaluate:" + exc
+                        full["exc"] = "Timeout" if exc == "Timeout" else "evaluate:" + exc
                     else:
                         full["table"] = tab
                         if ev["op"] == "parse" and ev["text"] not in ("", "<empty>"):
